@@ -128,6 +128,7 @@ def task_fit(pr, variant):
             nodesets.append([a, b])
         if nt >= 3:
             nodesets.append([a, (a + 2 * b) / 3, b])
+            nodesets.append([b, (a + 2 * b) / 3, a])      # the same admissible node set listed in DECREASING order
         if nt >= 1:
             nodesets.append([(2 * a + b) / 3])
         for nodes in nodesets:
@@ -159,7 +160,8 @@ def task_fit(pr, variant):
                     ch = mat_eq(E, [[x / 2 for x in r] for r in Rm])
                     chk.add("error-multiple", c1 or ch, "returned error == (1 or 1/2) * integral of the squared residual", backend="exact-Q")
 
-            out += H.run_paths(ctx, fn, "S-con", ptag(pr, variant, ",nodes=%d" % len(nodes)), dict(wb, nodes=nodes), body_n)
+            dec = ",decreasing" if len(nodes) > 1 and nodes[0] > nodes[-1] else ""
+            out += H.run_paths(ctx, fn, "S-con", ptag(pr, variant, ",nodes=%d%s" % (len(nodes), dec)), dict(wb, nodes=nodes), body_n)
     finally:
         mon.uninstall()
     out += mon.obligations(ptag(pr, variant))
@@ -169,16 +171,61 @@ def task_fit(pr, variant):
 task_fit.contract_fn = "curves.Curve.fit_curve"
 
 
+# --------------------------------------------------------------------------------------
+# engine B: vector-valued control points - the returned error is the WORST coordinate of the integral of the squared residual
+# --------------------------------------------------------------------------------------
+def task_vector_points():
+    from ..report import FAILED, PROVED, ob
+    fn = "curves.Curve.fit_curve"
+    out = []
+    for pr in ((2, (1, 0, 0), 1, (0, 0, 0)), (3, (0, 1, 0), 2, (0, 0, 0)), (1, (1, 1, 0), 1, (1, 0, 0))):
+        ps, cs, pt_, ct = pr
+        Us, Ut = vec(ps, cs, 0), vec(pt_, ct, 0)
+        ns, nt = len(Us) - ps - 1, len(Ut) - pt_ - 1
+        P = [np.array([F((-1) ** i * (i + 1), 2), F(i * i, 3), F(3 - i)], dtype=object) for i in range(ns)]
+        src, dst = curves.Curve(list(Us), P), curves.Curve(list(Ut))
+        bad = None
+        try:
+            err = dst.fit_curve(src)
+            Gtt, Gts = spec.gram(Ut, pt_, Ut, pt_), spec.gram(Ut, pt_, Us, ps)
+            worst = F(0)
+            for d in range(3):
+                Pd = [q[d] for q in P]
+                Qd = [q[d] for q in dst.ctrlpoints]
+                if [sum(Gtt[i][j] * Qd[j] for j in range(nt)) for i in range(nt)] != [sum(Gts[i][j] * Pd[j] for j in range(ns)) for i in range(nt)]:
+                    bad = "coordinate %d of the result is not the L2 projection (normal equations fail)" % d
+                    break
+                T = spec.mat_solve(Gtt, Gts)
+                Rm = spec.residual_form(Us, ps, Ut, pt_, T)
+                worst = max(worst, sum(Pd[i] * Rm[i][j] * Pd[j] for i in range(ns) for j in range(ns)))
+            if not bad and err not in (worst, worst / 2):
+                bad = "returned error %s; the integral of the squared residual is at most %s in a coordinate (expected that, or half of it)" % (err, worst)
+        except Exception as e:
+            bad = "%s: %s" % (type(e).__name__, str(e)[:100])
+        out.append(ob("%s:vector-points[%s]" % (fn, ptag(pr, 0)), fn, FAILED if bad else PROVED, "B", "concrete", 0.0,
+                      bad or "3-D control points: every coordinate is the L2 projection, the returned error is the worst coordinate's squared-residual integral",
+                      dict(kind="c11.vector", pr=list(pr)) if bad else None))
+    return out + [{"_stats": dict(cases=len(out))}]
+
+
+task_vector_points.contract_fn = "curves.Curve.fit_curve"
+
+
 def tasks(tier, seed):
     ts = []
     for pr in pairs(tier):
         for variant in ((0, 1) if tier == "quick" else (0, 1, 2)):
             ts.append((task_fit, (pr, variant)))
+    ts.append((task_vector_points, ()))
     return ts
 
 
 def replay(o):
     w = o["witness"]
+    if w.get("kind") == "c11.vector":
+        pr = (w["pr"][0], tuple(w["pr"][1]), w["pr"][2], tuple(w["pr"][3]))
+        r = [x for x in task_vector_points() if "id" in x and x["id"].endswith("[%s]" % ptag(pr, 0))][0]
+        return r["status"] == "failed", "L2 projection per coordinate; error == worst coordinate", r["detail"]
     pr = (w["pr"][0], tuple(w["pr"][1]), w["pr"][2], tuple(w["pr"][3]))
     variant = w["variant"]
     ps, cs, pt_, ct = pr
